@@ -361,9 +361,11 @@ func (m *ldbManager) Add(transaction Transaction) error {
 	frontierIdentifier := GetFrontierIdentifier(db)
 
 	if previous == frontierIdentifier {
+		verifWrite("add:patch")
 		if err := m.ldb.Put(common.JoinBytes(patchByte, common.Uint64ToBytes(identifier.Height)), patch.Dump(), nil); err != nil {
 			return err
 		}
+		verifWrite("add:rollback")
 		if err := m.ldb.Put(common.JoinBytes(rollbackByte, common.Uint64ToBytes(identifier.Height)), rollbackPatch.Dump(), nil); err != nil {
 			return err
 		}
@@ -380,9 +382,11 @@ func (m *ldbManager) Pop() error {
 	if err := ApplyPatch(NewLevelDBWrapper(m.ldb).Subset(frontierByte), rollbackPatch); err != nil {
 		return err
 	}
+	verifWrite("pop:patch")
 	if err := m.ldb.Delete(common.JoinBytes(patchByte, common.Uint64ToBytes(frontierIdentifier.Height)), nil); err != nil {
 		return err
 	}
+	verifWrite("pop:rollback")
 	if err := m.ldb.Delete(common.JoinBytes(rollbackByte, common.Uint64ToBytes(frontierIdentifier.Height)), nil); err != nil {
 		return err
 	}
